@@ -282,7 +282,19 @@ def check(item, tier):
                             # a batch mixes problems that stabilise at different sweeps: a zero-reward copy (stable at once) first
                             zero_T = tuple(tuple((a, d, F(0)) for a, d, rw in row) for row in spec_item[2])
                             mdp0 = build.SpecMDP(Spec(spec_item[:2] + (zero_T,) + spec_item[3:]), slabel, alabel, explicit)
-                            b = PolicyIteration(max_iterations=500, undefined_value=undef).batch_plan_on([mdp0, mdp2, mdp, mdp2])[1:]
+                            # ... and a state-reversed isomorphic copy first-but-one (same shape, action sets at other states)
+                            nn = spec.n
+                            rev_T = tuple(tuple((a, tuple((nn - 1 - t, p_) for t, p_ in d), rw) for a, d, rw in spec_item[2][nn - 1 - s_])
+                                          for s_ in range(nn))
+                            rev_item = ('mdp', nn, rev_T, tuple(sorted(nn - 1 - x for x in spec_item[3])),
+                                        tuple((nn - 1 - x, p_) for x, p_ in spec_item[4]), spec_item[5])
+                            mdpr = build.SpecMDP(Spec(rev_item), slabel, alabel, True)
+                            if explicit and mdpr.transition_matrix.shape == mdp.transition_matrix.shape and \
+                                    not (Spec(rev_item).gamma == 1 and zero_reward_improper_cycle(Spec(rev_item))):
+                                first = [mdpr, mdp0]
+                            else:
+                                first = [mdp0]
+                            b = PolicyIteration(max_iterations=500, undefined_value=undef).batch_plan_on(first + [mdp2, mdp, mdp2])[len(first):]
                             r.count('transitions')
                             single2 = PolicyIteration(max_iterations=500, undefined_value=undef).plan_on(mdp2)
                             for got, want, nm in ((b[1], res, 'b1'), (b[0], single2, 'b0'), (b[2], single2, 'b2')):
